@@ -115,6 +115,7 @@ def pop_ops(real):
         ('set_population_parameters([[1,0]])', lambda m: setpp(m, [[1, 0]])),
         ('set_population_parameters(all)', lambda m: setpp(m, [[p, d] for d in range(m.n_dim()) for p in range(2)])),
         ('set_covariate_names(new)', lambda m: m.set_covariate_names(fresh('C', m.n_covariates()))),
+        ('set_covariate_names(None)', lambda m: m.set_covariate_names(None)),
     ]
     return ops
 
@@ -220,7 +221,7 @@ def pop_inv(real, m, default_names, with_values=True):
 SIGNATURES = [
     # ComposedPopulationModel.set_dim_names(None) resets each sub-model to its own 'Dim. 1': default names of same-family sub-models collide
     # (TestComposedPopulationModel.test_set_dim_names pins exactly these names)
-    ('dim-names-reset', ('unique',), lambda label, done: 'Composed[' in label and 'set_dim_names(None)' in done
+    ('dim-names-reset', ('unique', 'defaults'), lambda label, done: 'Composed[' in label and 'set_dim_names(None)' in done
      and 'set_dim_names(new)' not in done[len(done) - 1 - done[::-1].index('set_dim_names(None)'):]),
     # ReducedPopulationModel.n_ids() is the base-class value 1, not the wrapped model's (TestReducedPopulationModel.test_set_n_ids pins 1):
     # a composite built from a reduced heterogeneous model is configured for the wrong number of individuals
@@ -236,8 +237,8 @@ def signature(pred, label, done):
     return None
 
 
-PRED = ['count-names', 'dims', 'hierarchical', 'special-dims', 'unique', 'order', 'accepts', 'gradient']
-STRUCT = PRED[:6]
+PRED = ['count-names', 'dims', 'hierarchical', 'special-dims', 'unique', 'order', 'defaults', 'accepts', 'gradient']
+STRUCT = PRED[:7]
 
 
 def run_pop_history(real, factory, seq, opmap):
@@ -263,12 +264,144 @@ def run_pop_history(real, factory, seq, opmap):
                 custom.add('par')
             if nm == 'set_parameter_names(None)':
                 custom.discard('par')
+            if nm == 'set_covariate_names(new)' and m.n_covariates() > 0:
+                custom.add('cov')
+            if nm == 'set_covariate_names(None)':
+                custom.discard('cov')
         except EXPECTED:
             done.append(nm + '!')
         r = pop_inv(real, m, not custom)
         if r:
             return r[0], r[1], done
+    if not custom and any(d.split('(')[0] in NAMING for d in done):
+        # default naming again (every renaming was reset): the names are those of a model that was never renamed
+        m2 = factory()
+        for nm in done:
+            if nm.endswith('!') or nm.split('(')[0] in NAMING:
+                continue
+            try:
+                opmap[nm](m2)
+            except EXPECTED:
+                pass
+        want = [list(m2.get_parameter_names()), list(m2.get_dim_names())] + ([list(m2.get_covariate_names())] if hasattr(m2, 'get_covariate_names') else [])
+        got = [list(m.get_parameter_names()), list(m.get_dim_names())] + ([list(m.get_covariate_names())] if hasattr(m, 'get_covariate_names') else [])
+        if got != want:
+            return 'defaults', 'after every renaming was reset the names are %s; a model configured the same way that was never renamed has %s' % (got, want), done
     return None
+
+
+NAMING = ('set_dim_names', 'set_parameter_names', 'set_covariate_names')
+
+
+def pop_observe(real, m):
+    """everything a caller can observe of a population model at arguments of which each part either equals or differs from the arguments of
+    earlier evaluations (pop_values): a memo keyed by only some of the arguments, or not dropped by a reconfiguration, shows up here"""
+    inner = m
+    while isinstance(inner, real.ReducedPopulationModel):
+        inner = inner.get_population_model()
+    n_ids = inner.n_ids() if inner.n_ids() else 2
+    theta0, obs0, cov0 = pop_values(real, m, n_ids)
+    out = [list(m.get_parameter_names()), list(m.get_dim_names()), m.n_parameters(), m.get_special_dims()]
+    for th, ob, cv in [(theta0, obs0, cov0), (theta0, obs0 * 1.25 + 0.1, cov0 + 0.37), (theta0 * 1.1 + 0.02, obs0, cov0), (theta0, obs0, cov0 + 0.37), (theta0, obs0 * 1.25 + 0.1, cov0)]:
+        kw = {'covariates': cv} if m.n_covariates() > 0 else {}
+        for call in (lambda: m.compute_log_likelihood(th, ob, **kw), lambda: m.compute_sensitivities(th, ob, **kw), lambda: m.compute_sensitivities(th, ob, reduce=True, **kw),
+                     lambda: m.compute_individual_parameters(th, ob, **kw), lambda: m.sample(th, n_samples=n_ids, seed=5, **kw)):
+            try:
+                r = call()
+            except Exception as ex:
+                out.append('raises ' + type(ex).__name__)
+                continue
+            if isinstance(r, tuple) and np.ndim(r[0]) == 0 and not np.isfinite(r[0]):
+                r = r[:1]                   # sensitivities next to an infinite score are undefined
+            out.append([np.array(v, dtype=float).tolist() for v in r] if isinstance(r, tuple) else np.array(r, dtype=float).tolist())
+    return out
+
+
+def same_observation(a, b):
+    if isinstance(a, (list, tuple)) and isinstance(b, (list, tuple)):
+        return len(a) == len(b) and all(same_observation(u, v) for u, v in zip(a, b))
+    if isinstance(a, float) or isinstance(b, float):
+        try:
+            return bool(np.isclose(a, b, rtol=1e-9, atol=1e-12, equal_nan=True))
+        except TypeError:
+            return False
+    return a == b
+
+
+def run_pop_transparent(real, factory, seq, opmap):
+    """C19 (used by contracts/c19.py): a model that is evaluated after every configuration call ends up observably equal to a model that
+    went through the same configuration calls without being evaluated in between.  Returns None or (message, history)."""
+    a, b = factory(), factory()
+    done = []
+    try:
+        pop_inv(real, a, False)
+        pop_observe(real, a)
+    except Exception:
+        return None
+    for nm in seq:
+        if not applicable((nm, opmap[nm]), a):
+            return None
+        oka = okb = True
+        try:
+            opmap[nm](a)
+        except EXPECTED:
+            oka = False
+        try:
+            opmap[nm](b)
+        except EXPECTED:
+            okb = False
+        done.append(nm + ('' if oka else '!'))
+        if oka != okb:
+            return 'the configuration call %s is %s for a model that was evaluated before and %s for one that was not' % (nm, 'accepted' if oka else 'rejected', 'accepted' if okb else 'rejected'), done
+        try:
+            pop_inv(real, a, True)          # evaluations and getters between the configuration calls
+        except Exception:
+            return None
+    try:
+        oa = pop_observe(real, a)
+    except Exception as ex:
+        return 'observing the evaluated model raises %r' % (ex,), done
+    ob = pop_observe(real, b)
+    if not same_observation(oa, ob):
+        k = [i for i, (u, v) in enumerate(zip(oa, ob)) if not same_observation(u, v)]
+        return 'a model that was evaluated after each configuration call differs (observation %s: %s) from a model that went through the same calls without evaluations (%s)' % (k[:3], str(oa[k[0]])[:120], str(ob[k[0]])[:120]), done
+    return None
+
+
+def population_transparent(rec, family, obligation):
+    import chi as real
+    ops = pop_ops(real)
+    opmap = dict(ops)
+    depth = 2
+    cases = []
+    facts = {}
+    for label, fam, factory in pop_configs(real, rec.tier):
+        if fam != family:
+            continue
+        if fam == 'Composed' and label.count(',') > 3 and rec.tier == 'quick':
+            continue
+        m0 = factory()
+        names = [o[0] for o in ops if applicable(o, m0)]
+        for dd in range(1, depth + 1):
+            for seq in itertools.product(names, repeat=dd):
+                cases.append((label, seq))
+        facts[label] = factory
+    cap = 1200 if rec.tier == 'quick' else 5000          # all histories of length 1, an even stride through those of length 2
+    if len(cases) > cap:
+        short = [c for c in cases if len(c[1]) == 1]
+        long_ = [c for c in cases if len(c[1]) > 1]
+        stride = max(1, len(long_) // max(1, cap - len(short)))
+        cases = short + long_[(rec.seed % stride)::stride]
+
+    def one(case):
+        label, seq = case
+        r = run_pop_transparent(real, facts[label], seq, opmap)
+        if r is not None:
+            return '%s after [%s]: %s' % (label, ' -> '.join(r[1]), r[0])
+        return None
+    q = 'chi._population_models.'
+    rec.native_check(obligation, [q + '*.compute_log_likelihood', q + '*.compute_sensitivities', q + '*.compute_individual_parameters', q + '*.sample', q + '*.set_n_ids', q + '*.set_population_parameters', q + '*.fix_parameters'],
+                     cases, one, 'population-model configurations of C17 (family %s) x configuration histories of length <= 2 over %d operations (all of length 1; an even stride through those of length 2 up to %d cases); twin objects, one evaluated after every call' % (family, len(ops), cap), exhaustive=False)
 
 
 def population(rec, family):
@@ -319,7 +452,7 @@ def population(rec, family):
 # ---------------------------------------------------------------------------------------------------------------------
 # generic history runner for the other object families
 # ---------------------------------------------------------------------------------------------------------------------
-def run_family(rec, family, configs, ops, inv, funcs, preds, struct_preds, signatures=(), extra_depth=0):
+def run_family(rec, family, configs, ops, inv, funcs, preds, struct_preds, signatures=(), extra_depth=0, names_of=None):
     """configs: (label, factory); ops: (name, applicable(obj), fn(obj)); inv(obj) -> None | (predicate, message)"""
     depth = (2 if rec.tier == 'quick' else 3) + extra_depth
     fails = {}
@@ -353,6 +486,26 @@ def run_family(rec, family, configs, ops, inv, funcs, preds, struct_preds, signa
                             break
                 else:
                     done = ['<constructor>']
+                if r is None and names_of is not None and any(d.split('(')[0] in NAMING for d in done):
+                    custom = set()
+                    for d in done:
+                        if d.endswith('(new)') and d.split('(')[0] in NAMING:
+                            custom.add(d.split('(')[0])
+                        if d.endswith('(None)'):
+                            custom.discard(d.split('(')[0])
+                    if not custom:
+                        # default naming again: the names are those of an object configured the same way that was never renamed
+                        twin = factory()
+                        for d in done:
+                            if d.endswith('!') or d.split('(')[0] in NAMING:
+                                continue
+                            try:
+                                t2 = opd[d][2](twin)
+                                twin = t2 if t2 is not None else twin
+                            except EXPECTED:
+                                pass
+                        if names_of(obj) != names_of(twin):
+                            r = ('defaults', 'after every renaming was reset the names are %s; an object configured the same way that was never renamed has %s' % (names_of(obj), names_of(twin)))
                 if r:
                     sg = None
                     for nm_, prs, test in signatures:
@@ -457,10 +610,11 @@ def covariate_models(rec):
         ('set_parameter_names(new)', lambda m: True, lambda m: m.set_parameter_names(fresh('B', m.n_parameters() // m.n_covariates()) if False else fresh('B', m.n_parameters()))),
         ('set_parameter_names(None)', lambda m: True, lambda m: m.set_parameter_names(None)),
         ('set_covariate_names(new)', lambda m: True, lambda m: m.set_covariate_names(fresh('C', m.n_covariates()))),
+        ('set_covariate_names(None)', lambda m: True, lambda m: m.set_covariate_names(None)),
     ]
     q = 'chi._covariate_models.LinearCovariateModel.'
     run_family(rec, 'covariate', configs, ops, inv, [q + f for f in ('n_parameters', 'get_parameter_names', 'set_population_parameters', 'set_parameter_names', 'set_covariate_names')],
-               ['count-names', 'accepts', 'gradient'], ['count-names'])
+               ['count-names', 'defaults', 'accepts', 'gradient'], ['count-names', 'defaults'], names_of=lambda m: [list(m.get_parameter_names()), list(m.get_covariate_names())])
 
 
 # ---------------------------------------------------------------------------------------------------------------------
